@@ -14,6 +14,9 @@
                            the proxies returned by discover_services, discover_included_services,
                            discover_characteristics, discover_descriptors, flattened
      disc1(u, items)       discover_service(u)
+     discf(s, f, items, ddsc)
+                           discover_characteristics(f, service s) with a non-empty UUID filter f, and the
+                           descriptors then discovered for the returned proxies
      attrs(items)          discover_attributes()
      read(h, n, ver)       client read_value(h) returned n bytes equal to version ver of the
                            value (ver = 99 when the bytes equal no version the driver knows)
@@ -47,6 +50,10 @@ GInc == Is("disc") => ToSet(Ev.dinc) = XInc(rows, Explored) /\ NoDup(Ev.dinc)
 GChr == Is("disc") => ToSet(Ev.dchr) = XChr(rows, Explored) /\ NoDup(Ev.dchr)
 GDsc == Is("disc") => ToSet(Ev.ddsc) = XDsc(rows, Explored) /\ NoDup(Ev.ddsc)
 GOne == Is("disc1") => ToSet(Ev.items) = XSvcByUuid(rows, Ev.u) /\ NoDup(Ev.items)
+\* a filter selects among the characteristics of the service; it must not change their handle ranges
+FChr == {x \in TChr(rows) : x.s = Ev.s /\ x.u \in ToSet(Ev.f)}
+GFil == Is("discf") => /\ ToSet(Ev.items) = FChr /\ NoDup(Ev.items)
+                       /\ ToSet(Ev.ddsc) = {d \in TDsc(rows) : \E x \in FChr : x.h = d.c} /\ NoDup(Ev.ddsc)
 GAll == Is("attrs") => ToSet(Ev.items) = TAttr(rows) /\ NoDup(Ev.items)
 GVal == (Is("read") \/ Is("srv")) =>
             /\ Ev.h \in DOMAIN cur
@@ -62,6 +69,7 @@ Act == \/ /\ Is("mtu") /\ GMtu
           /\ UNCHANGED mtu
        \/ /\ Is("disc") /\ GSvc /\ GInc /\ GChr /\ GDsc /\ UNCHANGED vars
        \/ /\ Is("disc1") /\ GOne /\ UNCHANGED vars
+       \/ /\ Is("discf") /\ GFil /\ UNCHANGED vars
        \/ /\ Is("attrs") /\ GAll /\ UNCHANGED vars
        \/ /\ (Is("read") \/ Is("srv")) /\ GVal /\ UNCHANGED vars
        \/ /\ Is("write") /\ Ev.h \in DOMAIN cur
@@ -82,7 +90,7 @@ Stuck == /\ l <= Len(T)
                      [mtu |-> GMtu, ordered |-> GOrdered,
                       laysvc |-> GLaySvc, layinc |-> GLayInc, laychr |-> GLayChr, laydsc |-> GLayDsc,
                       svc |-> GSvc, inc |-> GInc, chr |-> GChr, dsc |-> GDsc,
-                      one |-> GOne, all |-> GAll, val |-> GVal]>>)
+                      one |-> GOne, fil |-> GFil, all |-> GAll, val |-> GVal]>>)
          /\ UNCHANGED tvars
 
 TraceInit == /\ rows = <<>> /\ cur = <<>> /\ mtu = 23
